@@ -418,6 +418,11 @@ impl FixtureDatabase {
     ) -> HashSet<String> {
         let canonical_path = self.get_canonical_path(file_path.to_path_buf());
 
+        // Only the outermost call of a walk sees every module reachable from its file. A nested
+        // call may be cut short by `visited` (import cycles, diamonds), so its result is partial
+        // and must not be memoised for later, independent queries.
+        let is_outermost_call = visited.is_empty();
+
         // Prevent circular imports
         if visited.contains(&canonical_path) {
             debug!("Circular import detected for {:?}, skipping", file_path);
@@ -447,15 +452,17 @@ impl FixtureDatabase {
         // Compute imported fixtures
         let imported_fixtures = self.compute_imported_fixtures(&canonical_path, &content, visited);
 
-        // Store in cache
-        self.imported_fixtures_cache.insert(
-            canonical_path.clone(),
-            (
-                content_hash,
-                current_version,
-                Arc::new(imported_fixtures.clone()),
-            ),
-        );
+        // Store in cache (complete results only, see above)
+        if is_outermost_call {
+            self.imported_fixtures_cache.insert(
+                canonical_path.clone(),
+                (
+                    content_hash,
+                    current_version,
+                    Arc::new(imported_fixtures.clone()),
+                ),
+            );
+        }
 
         info!(
             "Found {} imported fixtures for {:?}: {:?}",
